@@ -694,6 +694,30 @@ func c07OddCalls() *core.Space {
 			var m map[string]interface{}
 			c.Unpack(&m)
 		}},
+		{"two removals, then a write at the old last position of the list, then every read", func() {
+			for _, top := range []bool{false, true} {
+				var c *ucfg.Config
+				name := "l"
+				if top {
+					c, name = mustCfg(L{"a", "b", "c"}), ""
+				} else {
+					c = mustCfg(M{"l": L{"a", "b", "c"}})
+				}
+				c.Remove(name, 0)
+				c.Remove(name, 0)
+				c.SetString(name, 2, "x")
+				var m map[string]interface{}
+				c.Unpack(&m)
+				var l []interface{}
+				c.Unpack(&l)
+				c.FlattenedKeys()
+				c.Has(name, 1)
+				c.String(name, 1)
+				ucfg.NewFrom(c)
+				ucfg.New().Merge(c, ucfg.AppendValues)
+				c.Remove(name, 1)
+			}
+		}},
 		{"a regexp.Regexp held by value in a map / struct / slice as merge source", func() {
 			ucfg.New().Merge(M{"r": *regexp.MustCompile("a")})
 			ucfg.New().Merge(struct{ R regexp.Regexp }{*regexp.MustCompile("a")})
